@@ -150,3 +150,60 @@ Definition dmem (d : data) (k : string) : bool :=
 (* Result strings printed by the generated Cases files: one character per case. *)
 Fixpoint verdict_string (l : list ascii) : string :=
   match l with [] => EmptyString | c :: r => String c (verdict_string r) end.
+
+(* Strict equality of values (same Python type and value): used to compare event data. *)
+Definition val_eqb (a b : val) : bool :=
+  match a, b with
+  | VUndef, VUndef | VNone, VNone => true
+  | VBool x, VBool y => Bool.eqb x y
+  | VInt x, VInt y => Z.eqb x y
+  | VFlt x, VFlt y => Qeq_bool x y
+  | VStr x, VStr y => String.eqb x y
+  | VTup x, VTup y => zlist_eqb x y
+  | _, _ => false
+  end.
+
+Definition oval_eqb (a b : option val) : bool :=
+  match a, b with
+  | Some x, Some y => val_eqb x y
+  | None, None => true
+  | _, _ => false
+  end.
+
+Definition keys (d : data) : list string := map fst d.
+
+(* extensional equality of two dictionaries *)
+Definition data_equiv (a b : data) : bool :=
+  forallb (fun k => oval_eqb (dget a k) (dget b k)) (keys a ++ keys b).
+
+Definition str_in (k : string) (l : list string) : bool := existsb (String.eqb k) l.
+
+Lemma dget_dset_same d k v : dget (dset d k v) k = Some v.
+Proof.
+  induction d as [|[k' v'] r IH]; simpl.
+  - now rewrite String.eqb_refl.
+  - destruct (String.eqb k k') eqn:E; simpl; rewrite E; [reflexivity|exact IH].
+Qed.
+
+Lemma dget_dset_other d k v k2 : k2 <> k -> dget (dset d k v) k2 = dget d k2.
+Proof.
+  intros Hne. induction d as [|[k' v'] r IH]; simpl.
+  - apply String.eqb_neq in Hne. now rewrite Hne.
+  - destruct (String.eqb k k') eqn:E; simpl.
+    + apply String.eqb_eq in E. subst k'. apply String.eqb_neq in Hne. now rewrite Hne.
+    + destruct (String.eqb k2 k'); [reflexivity|exact IH].
+Qed.
+
+Lemma dget_ddel_same d k : dget (ddel d k) k = None.
+Proof.
+  induction d as [|[k' v'] r IH]; simpl; [reflexivity|].
+  destruct (String.eqb k k') eqn:E; simpl; [exact IH|]. now rewrite E.
+Qed.
+
+Lemma dget_ddel_other d k k2 : k2 <> k -> dget (ddel d k) k2 = dget d k2.
+Proof.
+  intros Hne. induction d as [|[k' v'] r IH]; simpl; [reflexivity|].
+  destruct (String.eqb k k') eqn:E; simpl.
+  - apply String.eqb_eq in E. subst k'. apply String.eqb_neq in Hne. now rewrite Hne.
+  - destruct (String.eqb k2 k'); [reflexivity|exact IH].
+Qed.
